@@ -8,7 +8,7 @@ SPEC = {
     "id": "C21",
     "props_module": "NDB.Props.C21",
     "corr_modules": ["NDB.Corr.C21"],
-    "theorems": ["C21_count_collect", "C21_sum_exact_or_float", "C21_min_max", "C21_one_row_per_key", "C21_nankey_refuted", "C21_zerokey_refuted"],
+    "theorems": ["C21_count_collect", "C21_sum_exact_or_float", "C21_min_max", "C21_one_row_per_key", "C21_nankey_refuted", "C21_zerokey_refuted", "C21_min_max_extremal"],
     "allowed_axioms": _m.ALLOWED_PRIMITIVES,
     "harness_pkg": "hx_cypher",
     "harness_bin": "c21",
@@ -20,8 +20,8 @@ SPEC = {
     "assumptions": [
         "avg and the float branch of sum are modelled (PrimFloat, same summation order) and compared by correspondence; no "
         "theorem is stated about their rounding",
-        "min/max: proved to be elements of the group; extremality is tested on the engine against an independent exact "
-        "comparator (flat values) and follows from C20_cmp_total_preorder",
+        "min/max: proved to be elements of the group and extremal (<= / >= every non-null value in the ORDER BY order) for "
+        "values without temporal strings; also tested on the engine against an independent exact comparator (flat values)",
         "percentileDisc/percentileCont are outside the model",
     ],
     "manifest": {
@@ -29,7 +29,7 @@ SPEC = {
         "text": "Theorems over the model of execute_aggregate: count(*) = number of rows; count/collect = the non-null values; "
                 "every DISTINCT variant = the plain aggregate of the distinct non-null values; sum never wraps (an integer result "
                 "is the exact sum, and the exact sum is returned whenever it is an i64; otherwise a float); min/max are null or "
-                "elements of the group; grouping yields pairwise different keys, covers every row's key and partitions the rows. "
+                "elements of the group and extremal in the ORDER BY order (values without temporal strings); grouping yields pairwise different keys, covers every row's key and partitions the rows. "
                 "Refuted with a witness: NaN grouping keys are never merged (one row per NaN). All 13 aggregates are run "
                 "through the engine on generated groups, the model is evaluated on the same rows in Coq, and the definitions "
                 "(exact bignum sum, independent grouping, counts, collect, extremal min/max) are tested directly.",
